@@ -499,7 +499,7 @@ theorem save_decodes {o : Obj} {os : OStream} {r : SaveRes} (hs : save o os = .o
   subst hh
   rw [eobj, eos]
   simp only at hl ⊢
-  rw [tailOs_eq o os _ segs1 lay done hg htr hl.shoffLt hl.phoffLt hl.offLt]
+  rw [tailOs_eq (preRes o) os _ segs1 lay done hg htr hl.shoffLt hl.phoffLt hl.offLt]
   exact ⟨applyWrites_good _ _ hg, applyWrites_slices _ os hg hl.disjoint⟩
 
 /-- the ELF header is at the start of the file -/
@@ -698,7 +698,7 @@ theorem save_decode_fields {o : Obj} {os : OStream} {r : SaveRes} (hs : save o o
       Spec.get l o.enc img base "sh_entsize" = a.entSize.toNat ∧
       (a.addrSet = true → Spec.get l o.enc img base "sh_addr" = a.addr.toNat) ∧
       (a.stype ≠ BitVec.ofNat 32 SHT_NOBITS → a.stype ≠ BitVec.ofNat 32 SHT_NULL → a.size ≠ 0 →
-        a.data.isSome = true → (a.isLoaded = true ∨ a.canLoad = false) →
+        a.data.isSome = true →
         slice img (Spec.get l o.enc img base "sh_offset") a.view.length = a.view)) ∧
     (∀ (j : Nat) g, o.segs[j]? = some g →
       let img := r.os.content
@@ -707,30 +707,34 @@ theorem save_decode_fields {o : Obj} {os : OStream} {r : SaveRes} (hs : save o o
       Spec.get l o.enc img base "p_type" = g.stype.toNat ∧ Spec.get l o.enc img base "p_flags" = g.flags.toNat ∧
       Spec.get l o.enc img base "p_vaddr" = g.vaddr.toNat ∧ Spec.get l o.enc img base "p_paddr" = g.paddr.toNat ∧
       g.align.toNat ≤ Spec.get l o.enc img base "p_align") := by
-  obtain ⟨⟨l1, f1, f2⟩, fs, ec, ee, _⟩ := save_frames hs hok hidx
+  obtain ⟨⟨l0, l1, f0, f1, f2⟩, fs, ec, ee, _⟩ := save_frames hs hok hidx
   rw [ec, ee] at hl
   constructor
   · intro i a ha
-    have hi : i < l1.length := by
-      rw [f1.1]
+    have hi0 : i < l0.length := by
+      rw [f0.1]
       rcases Nat.lt_or_ge i o.secs.length with hlt | hge
       · exact hlt
       · rw [List.getElem?_eq_none hge] at ha; cases ha
+    have hi : i < l1.length := by rw [f1.1]; exact hi0
     have hi2 : i < r.obj.secs.length := by rw [f2.1]; exact hi
-    have pm := f1.2 i a l1[i] ha (List.getElem?_eq_getElem hi)
+    have ra := f0.2 i a l0[i] ha (List.getElem?_eq_getElem hi0)
+    have pm := f1.2 i l0[i] l1[i] (List.getElem?_eq_getElem hi0) (List.getElem?_eq_getElem hi)
     have rb := f2.2 i l1[i] r.obj.secs[i] (List.getElem?_eq_getElem hi) (List.getElem?_eq_getElem hi2)
-    have fit : FieldsFit o.cls r.obj.secs[i] := resFrame_fit rb (placed_fit pm (hfit a (List.mem_of_getElem? ha)))
+    have fit : FieldsFit o.cls r.obj.secs[i] :=
+      resFrame_fit rb (placed_fit pm (resFrame_fit ra (hfit a (List.mem_of_getElem? ha))))
     have hmem : r.obj.secs[i] ∈ r.obj.secs := List.getElem_mem hi2
     have hl' : LayoutOk r.obj.cls r.obj.enc h r.obj.secs r.obj.segs := by rw [ec, ee]; exact hl
     obtain ⟨hrec, dat⟩ := save_decodes_section hs hok hg htr hh hl' hmem
     rw [ec, ee] at hrec
-    have e1 := pm.frame.rest; have e2 := rb.rest
+    have e0 := ra.rest; have e1 := pm.frame.rest; have e2 := rb.rest
+    rw [e0] at e1
     have eidx : (r.obj.secs[i]).index = a.index := by rw [e2, e1]
     rw [eidx] at hrec
     obtain ⟨g0, g1, g2, g3, g4, g5, g6, g7, g8, g9⟩ := shdr_get_at hrec fit
     simp only
     refine ⟨g0.trans ?_, g1.trans ?_, g2.trans ?_, g5.trans ?_, g6.trans ?_, g7.trans ?_, g8.trans ?_, g9.trans ?_,
-      fun hset => g3.trans ?_, fun n1 n2 n3 n4 n5 => ?_⟩
+      fun hset => g3.trans ?_, fun n1 n2 n3 n4 => ?_⟩
     · rw [e2, e1]
     · rw [e2, e1]
     · rw [e2, e1]
@@ -739,14 +743,17 @@ theorem save_decode_fields {o : Obj} {os : OStream} {r : SaveRes} (hs : save o o
     · rw [e2, e1]
     · rw [e2, e1]
     · rw [e2, e1]
-    · have := (pm.frame.addrKept hset).1
-      rw [e2]; exact congrArg BitVec.toNat this
+    · have h0set : (l0[i]).addrSet = true := by rw [e0]; exact hset
+      have h0addr : (l0[i]).addr = a.addr := by rw [e0]
+      have := (pm.frame.addrKept h0set).1
+      rw [e2]; exact congrArg BitVec.toNat (this.trans h0addr)
     · -- data
-      have hm : (l1[i]).isLoaded = true ∨ (l1[i]).canLoad = false := by rw [e1]; exact n5
-      have eb : r.obj.secs[i] = l1[i] := rb.resident hm
       have hst : (r.obj.secs[i]).stype = a.stype := by rw [e2, e1]
       have hsz : (r.obj.secs[i]).size = a.size := by rw [e2, e1]
-      have hda : (r.obj.secs[i]).data = a.data := by rw [eb, e1]
+      have d0 := (ra.dataSome n4).1
+      have d1 : (l1[i]).data = (l0[i]).data := by rw [pm.frame.rest]
+      have d2 := (rb.dataSome (by rw [d1, d0]; exact n4)).1
+      have hda : (r.obj.secs[i]).data = a.data := d2.trans (d1.trans d0)
       cases hd : a.data with
       | none => rw [hd] at n4; cases n4
       | some d =>
